@@ -348,7 +348,10 @@ fn main() {
                 6 => amlterm::gen_c06(tier, &mut rng, &mut emit),
                 10 => amlterm::gen_c10(tier, &mut rng, &mut emit),
                 15 => amlterm::gen_c15(tier, &mut rng, &mut emit),
-                7 => kernels::gen_c07(tier, &mut rng, &mut emit),
+                7 => {
+                    amlterm::gen_c07_sites(tier, &mut rng, &mut emit);
+                    kernels::gen_c07(tier, &mut rng, &mut emit);
+                }
                 8 => kernels::gen_c08(tier, &mut rng, &mut emit),
                 9 => kernels::gen_c09(tier, &mut rng, &mut emit),
                 16 => kernels::gen_c16(tier, &mut rng, &mut emit),
